@@ -51,3 +51,186 @@ impl crate::vm::runtime::RuntimeData {
         self.value_stack.iter().collect()
     }
 }
+
+// ------------------------------------------------------------------------------------------
+// Event sink: the interpreter reports what it does at its linearization points. Nothing is
+// recorded unless a harness switches recording on; the events never influence execution, except
+// for the explicit `force_gc` schedule (a set of allocation numbers at which a collection is
+// started regardless of the threshold).
+
+#[derive(Debug, Clone, PartialEq)]
+pub enum Event {
+    RunStart { max_instr: u64 },
+    RunEnd { ok: bool },
+    /// about to execute the instruction at `ip`; `depth` = nesting of `_run` (1 = top level)
+    Instr { ip: u32, op: u8, depth: u32, stack_h: u32, call_h: u32 },
+    /// run_function: a host function re-enters the interpreter
+    Reenter { stack_h: u32, call_h: u32 },
+    ReenterEnd { stack_h: u32, call_h: u32, ok: bool },
+    /// allocator: `charge` = size + align as accounted by the allocator
+    Alloc { charge: usize, ok: bool, allocated: usize, next_gc: usize, limit: usize, live_bytes: Option<usize> },
+    Dealloc { charge: usize, allocated: usize },
+    GcBegin { objects: usize, allocated: usize },
+    GcEnd { objects: usize, allocated: usize },
+    Clear { allocated: usize },
+}
+
+#[derive(Default)]
+pub struct Hooks {
+    pub record: bool,
+    pub events: Vec<Event>,
+    /// start a collection at these allocation numbers (0-based, counted since `reset`)
+    pub force_gc_at: std::collections::BTreeSet<u64>,
+    /// start a collection at every allocation
+    pub force_gc_every: bool,
+    pub alloc_count: u64,
+    pub run_depth: u32,
+    /// compute the bytes reachable from the roots when an allocation fails
+    pub live_bytes_on_failure: bool,
+}
+
+thread_local! {
+    pub static HOOKS: std::cell::RefCell<Hooks> = std::cell::RefCell::new(Hooks::default());
+}
+
+pub fn reset(record: bool) {
+    HOOKS.with(|h| *h.borrow_mut() = Hooks { record, ..Default::default() });
+}
+
+pub fn with_hooks<T>(f: impl FnOnce(&mut Hooks) -> T) -> T {
+    HOOKS.with(|h| f(&mut h.borrow_mut()))
+}
+
+pub fn take_events() -> Vec<Event> {
+    HOOKS.with(|h| std::mem::take(&mut h.borrow_mut().events))
+}
+
+#[inline]
+pub(crate) fn emit(f: impl FnOnce() -> Event) {
+    HOOKS.with(|h| {
+        if let Ok(mut h) = h.try_borrow_mut() {
+            if h.record {
+                let e = f();
+                h.events.push(e);
+            }
+        }
+    });
+}
+
+/// called by the allocator for every allocation request; true = start a collection now
+pub(crate) fn gc_forced_now() -> bool {
+    HOOKS.with(|h| {
+        let mut h = h.borrow_mut();
+        let n = h.alloc_count;
+        h.alloc_count += 1;
+        h.force_gc_every || h.force_gc_at.contains(&n)
+    })
+}
+
+pub(crate) fn run_depth_enter() -> u32 {
+    HOOKS.with(|h| {
+        let mut h = h.borrow_mut();
+        h.run_depth += 1;
+        h.run_depth
+    })
+}
+
+pub(crate) fn run_depth_leave() {
+    HOOKS.with(|h| {
+        let mut h = h.borrow_mut();
+        h.run_depth = h.run_depth.saturating_sub(1);
+    })
+}
+
+pub(crate) fn wants_live_bytes() -> bool {
+    HOOKS.with(|h| h.borrow().live_bytes_on_failure)
+}
+
+// ------------------------------------------------------------------------------------------
+// An independent account of the bytes reachable from the interpreter's roots (value stack,
+// globals, closures of active call frames, open upvalues, guarded objects), written for the
+// harness and deliberately not sharing code with RuntimeData::gc.
+impl crate::vm::runtime::RuntimeData {
+    pub fn verif_live_bytes(&self) -> usize {
+        use crate::value::Value;
+        use crate::vm::runtime::cao_lang_object::{CaoLangObject, CaoLangObjectBody, GcMarker};
+        use std::alloc::Layout;
+        use std::collections::HashSet;
+        let mut seen: HashSet<*const CaoLangObject> = HashSet::new();
+        let mut work: Vec<*const CaoLangObject> = vec![];
+        let mut push_val = |v: &Value, work: &mut Vec<*const CaoLangObject>| {
+            if let Value::Object(o) = v {
+                work.push(o.as_ptr() as *const _);
+            }
+        };
+        for v in self.value_stack.iter() {
+            push_val(&v, &mut work);
+        }
+        for v in self.global_vars.iter() {
+            push_val(v, &mut work);
+        }
+        let mut u = self.open_upvalues as *const CaoLangObject;
+        let mut guard = 0;
+        unsafe {
+            while let Some(o) = u.as_ref() {
+                work.push(u);
+                guard += 1;
+                match o.as_upvalue() {
+                    Some(up) if guard < 100_000 => u = up.next,
+                    _ => break,
+                }
+            }
+            for f in self.call_stack.iter() {
+                if let Some(c) = f.closure.as_ref() {
+                    for up in c.upvalues.iter() {
+                        work.push(up.as_ptr() as *const _);
+                    }
+                }
+            }
+            for o in self.object_list.iter() {
+                if matches!(o.as_ref().marker, GcMarker::Protected) {
+                    work.push(o.as_ptr() as *const _);
+                }
+            }
+        }
+        let charge = |l: Layout| l.size() + l.align();
+        let mut total = 0usize;
+        while let Some(p) = work.pop() {
+            if p.is_null() || !seen.insert(p) {
+                continue;
+            }
+            let o = unsafe { &*p };
+            total += charge(Layout::new::<CaoLangObject>());
+            match &o.body {
+                CaoLangObjectBody::Table(t) => {
+                    let cap = t.capacity();
+                    let h = Layout::array::<u64>(cap).unwrap();
+                    let k = Layout::array::<Value>(cap).unwrap();
+                    let v = Layout::array::<Value>(cap).unwrap();
+                    let (l, _) = h.extend(k).unwrap();
+                    let (l, _) = l.extend(v).unwrap();
+                    total += charge(l);
+                    for (k, v) in t.iter() {
+                        push_val(k, &mut work);
+                        push_val(v, &mut work);
+                    }
+                }
+                CaoLangObjectBody::String(s) => {
+                    total += charge(Layout::array::<char>(s.len()).unwrap());
+                }
+                CaoLangObjectBody::Closure(c) => {
+                    for up in c.upvalues.iter() {
+                        work.push(up.as_ptr() as *const _);
+                    }
+                }
+                CaoLangObjectBody::Upvalue(up) => unsafe {
+                    if let Some(v) = up.location.as_ref() {
+                        push_val(v, &mut work);
+                    }
+                },
+                CaoLangObjectBody::Function(_) | CaoLangObjectBody::NativeFunction(_) => {}
+            }
+        }
+        total
+    }
+}
